@@ -283,7 +283,16 @@ def fn_text(src, name):
     """(parameter text, body text) of `fn name…(…) … { … }` by brace matching"""
     m = re.search(r'fn %s(?:<[^>]*>)?\s*\(' % re.escape(name), src)
     if not m:
-        raise Untranslatable('fn %s not found' % name)
+        m = re.search(r'fn %s<' % re.escape(name), src)      # generic parameters with nested angle brackets
+        if not m:
+            raise Untranslatable('fn %s not found' % name)
+        depth, g = 1, m.end()
+        while depth:
+            depth += (src[g] == '<') - (src[g] == '>')
+            g += 1
+        m = re.compile(r'\s*\(').match(src, g)
+        if not m:
+            raise Untranslatable('fn %s: no parameter list' % name)
     i = m.end()
     depth, j = 1, i
     while depth:
@@ -594,6 +603,7 @@ def event_layout(rep):
         L += ['def evReads : List Nat := untranslatable_source "Event accessors"', '']
         rep['untranslatable'].append('Event accessors: %s' % ex)
     L += filter_header(rep)
+    L += tags_layout(rep)
     L += ['end Pocket.Src', '']
     return '\n'.join(L)
 
@@ -650,6 +660,121 @@ def filter_header(rep):
         L += ['/-- the header of `Filter::from_parts` could not be translated: %s -/' % str(ex).replace('-/', '- /'),
               'def filterHeader : Bytes := untranslatable_source "Filter::from_parts header"', '']
         rep['untranslatable'].append('filter header: %s' % ex)
+    return L
+
+
+def _size_expr(e, names):
+    """integer arithmetic over literals and the given names (`numtags`, `s.len()`, …) -> Lean"""
+    toks = re.findall(r'\d+|[A-Za-z_][\w.]*(?:\(\))?|[+*()]', e)
+    if ''.join(toks) != e:
+        raise Untranslatable('size expression %r' % e)
+    out = []
+    for t in toks:
+        if t.isdigit() or t in '+*()':
+            out.append(t)
+        elif t in names:
+            out.append(names[t])
+        else:
+            raise Untranslatable('size expression: name %r' % t)
+    return ' '.join(out)
+
+
+def tags_layout(rep):
+    """the tag section (tags.rs): `Tags::output_size_needed` as two nested folds, the two rejections and the header writes of
+    `Tags::from_parts`, and where `delineate`, `count`, `TagsIter::next` and `TagsStringIter::next` read"""
+    src = open(os.path.join(REPO, 'pocket-types/src/tags.rs')).read()
+    L = []
+    try:
+        _, body = fn_text(src, 'output_size_needed')
+        b = re.sub(r'\s+', '', body)
+        m = re.fullmatch(r'letnumtags=parts\.len\(\);letmutlength=([^;]+);fortagrefinparts\.iter\(\)\{lettag=tagref\.as_ref\(\);((?:length\+=[^;]+;)*)'
+                         r'forsrefintag\.iter\(\)\{lets=sref\.as_ref\(\);((?:length\+=[^;]+;)*)\}((?:length\+=[^;]+;)*)\}length', b)
+        if not m:
+            raise Untranslatable('output_size_needed is not "an initial length, then per tag and per string additions"')
+        init = _size_expr(m.group(1), {'numtags': 'ts.length'})
+
+        def adds(txt, names, acc):
+            for inc in re.findall(r'length\+=([^;]+);', txt):
+                acc = '(%s + %s)' % (acc, _size_expr(inc, names))
+            return acc
+        tagn = {'numtags': 'ts.length', 'tag.len()': 'tag.length'}
+        strn = dict(tagn); strn['s.len()'] = 's.length'
+        pre, inner, post = adds(m.group(2), tagn, 'length'), adds(m.group(3), strn, 'length'), m.group(4)
+        tagbody = 'tag.foldl (fun length s => %s) %s' % (inner, pre)
+        if post:
+            tagbody = adds(post, tagn, '(%s)' % tagbody)
+        L += ['/-- `Tags::output_size_needed`: the additions to `length`, tag by tag and string by string -/',
+              'def tagsSize (ts : List (List Bytes)) : Nat :=',
+              '  ts.foldl (fun length tag => %s) (%s)' % (tagbody, init), '']
+        rep['translated'].append('tags.rs:output_size_needed')
+    except Untranslatable as ex:
+        L += ['/-- `Tags::output_size_needed` could not be translated: %s -/' % str(ex).replace('-/', '- /'),
+              'def tagsSize (ts : List (List Bytes)) : Nat := untranslatable_source "Tags::output_size_needed"', '']
+        rep['untranslatable'].append('tags size: %s' % ex)
+    try:
+        _, body = fn_text(src, 'from_parts')
+        b = re.sub(r'\s+', '', body)
+        m = re.match(r'letnumtags=parts\.len\(\);letlength=Self::output_size_needed\(parts\);'
+                     r'iflength>u16::MAXasusize\{returnErr\(InnerError::OutOfRange\(length\)\.into\(\)\);\}'
+                     r'ifoutput\.len\(\)<length\{returnErr\(InnerError::BufferTooSmall\(length\)\.into\(\)\);\}'
+                     r'output\[0\.\.2\]\.copy_from_slice\(\(lengthasu16\)\.to_ne_bytes\(\)\.as_slice\(\)\);'
+                     r'output\[2\.\.4\]\.copy_from_slice\(\(parts\.len\(\)asu16\)\.to_ne_bytes\(\)\.as_slice\(\)\);'
+                     r'letmutp:usize=([^;]+);', b)
+        if not m:
+            raise Untranslatable('from_parts does not start with "size, reject > u16::MAX, reject a short buffer, write length and count, p = …"')
+        if not b.endswith('Ok(Self::from_inner(&output[..length]))'):
+            raise Untranslatable('from_parts does not return the first `length` bytes of the output')
+        L += ['/-- `Tags::from_parts` refuses: a section longer than `u16::MAX`, or an output buffer shorter than the section -/',
+              'def tagsRejects (length outLen : Nat) : Bool := length > 65535 || outLen < length', '',
+              '/-- the four header bytes `Tags::from_parts` writes first -/',
+              'def tagsHeader (length numtags : Nat) : Bytes := le16 length ++ le16 numtags', '',
+              '/-- where `Tags::from_parts` starts writing the tags themselves (what it puts into the first offset slot) -/',
+              'def tagsBodyStart (numtags : Nat) : Nat := %s' % _size_expr(m.group(1), {'numtags': 'numtags'}), '']
+        rep['translated'].append('tags.rs:from_parts guards and header')
+    except Untranslatable as ex:
+        L += ['/-- the head of `Tags::from_parts` could not be translated: %s -/' % str(ex).replace('-/', '- /'),
+              'def tagsRejects (length outLen : Nat) : Bool := untranslatable_source "Tags::from_parts"',
+              'def tagsHeader (length numtags : Nat) : Bytes := untranslatable_source "Tags::from_parts"',
+              'def tagsBodyStart (numtags : Nat) : Nat := untranslatable_source "Tags::from_parts"', '']
+        rep['untranslatable'].append('tags from_parts: %s' % ex)
+    try:
+        reads = []
+        _, d = fn_text(src, 'delineate')
+        d = re.sub(r'\s+', '', d)
+        m = re.fullmatch(r'ifinput\.len\(\)<(\d+)\{returnErr\(InnerError::EndOfInput\.into\(\)\);\}letlen=parse_u16!\(input,(\d+)\)asusize;'
+                         r'ifinput\.len\(\)<len\{returnErr\(InnerError::EndOfInput\.into\(\)\);\}Ok\(Self::from_inner\(&input\[0\.\.len\]\)\)', d)
+        if not m:
+            raise Untranslatable('Tags::delineate')
+        reads += [int(m.group(1)), int(m.group(2))]
+        _, c = fn_text(src, 'count')
+        m = re.fullmatch(r'parse_u16!\(self\.0,(\d+)\)asusize', re.sub(r'\s+', '', c))
+        if not m:
+            raise Untranslatable('Tags::count')
+        reads.append(int(m.group(1)))
+        i = src.index('impl<\'a> Iterator for TagsIter<\'a>')
+        _, n = fn_text(src[i:], 'next')
+        m = re.fullmatch(r'ifself\.next>=self\.tags\.count\(\)\{None\}else\{letoffset_slot=(\d+)\+self\.next\*(\d+);letoffset=parse_u16!\(self\.tags\.0,offset_slot\)asusize;'
+                         r'letcount=parse_u16!\(self\.tags\.0,offset\)asusize;self\.next\+=1;Some\(TagsStringIter\{tags:self\.tags,count,cur_offset:offset\+(\d+),next:0,\}\)\}',
+                         re.sub(r'\s+', '', n))
+        if not m:
+            raise Untranslatable('TagsIter::next')
+        reads += [int(m.group(1)), int(m.group(2)), int(m.group(3))]
+        i = src.index('impl<\'a> Iterator for TagsStringIter<\'a>')
+        _, n = fn_text(src[i:], 'next')
+        m = re.fullmatch(r'ifself\.next>=self\.count\{None\}else\{letlen=parse_u16!\(self\.tags\.0,self\.cur_offset\)asusize;'
+                         r'lets=&self\.tags\.0\[self\.cur_offset\+(\d+)\.\.self\.cur_offset\+(\d+)\+len\];self\.cur_offset\+=(\d+)\+len;self\.next\+=1;Some\(s\)\}',
+                         re.sub(r'\s+', '', n))
+        if not m:
+            raise Untranslatable('TagsStringIter::next')
+        reads += [int(m.group(1)), int(m.group(2)), int(m.group(3))]
+        L += ['/-- where the readers of `Tags` read: `delineate` (least input, the length), `count`, `TagsIter::next` (first slot, slot width, from the',
+              'tag\'s count to its first string), `TagsStringIter::next` (from a string\'s length to its bytes, twice, and the step over it) -/',
+              'def tagReads : List Nat := %s' % reads, '']
+        rep['translated'].append('tags.rs:reader offsets %s' % reads)
+    except (Untranslatable, ValueError) as ex:
+        L += ['/-- the readers of `Tags` could not be translated: %s -/' % str(ex).replace('-/', '- /'),
+              'def tagReads : List Nat := untranslatable_source "Tags readers"', '']
+        rep['untranslatable'].append('tags readers: %s' % ex)
     return L
 
 
